@@ -57,25 +57,25 @@ Fixpoint touch_pv (sc : schema) (v : pv) {struct v} : pv :=
 Definition touch (sc : schema) (o : obj) : obj :=
   match touch_pv sc (PMsg o) with PMsg o' => o' | _ => o end.
 
-(* Message.__copy__ / __deepcopy__: kwargs = every raw attribute that is not PLACEHOLDER, through the
-   constructor (__post_init__ re-derives _group_current), then _copy_internal_state carries over
-   _serialized_on_wire and _unknown_fields *)
-(* dataclass __init__ assigns each kwarg through Message.__setattr__, which raises the flag of a
-   field-less message value *)
-Definition init_arg (sc : schema) (v : pv) : pv := if fieldless sc v then mark_sow v else v.
+(* Message.__copy__ / __deepcopy__ (repaired, commit 0ef9c00): new = cls(); every raw attribute that is not
+   PLACEHOLDER is stored as it is (object.__setattr__: no flag is raised, no sibling reset), the slots that are
+   PLACEHOLDER keep what cls() put there (None for optional fields, PLACEHOLDER otherwise);
+   _copy_internal_state carries over _serialized_on_wire, _unknown_fields and _group_current. *)
+Definition overlay (sc : schema) (c : nat) (raw : list pv) : list pv :=
+  (fix go (raw fresh : list pv) {struct raw} : list pv :=
+     match raw, fresh with
+     | x :: raw', y :: fresh' => (match x with PPlaceholder => y | _ => x end) :: go raw' fresh'
+     | _, _ => fresh
+     end) raw (oraw (new sc c)).
 
 Definition copy (sc : schema) (o : obj) : obj :=
-  let 'Obj c raw sow unk _ := o in
-  let 'Obj c' raw' _ _ cur' := post_init sc c (map (init_arg sc) raw) in
-  Obj c' raw' sow unk cur'.
+  let 'Obj c raw sow unk cur := o in Obj c (overlay sc c raw) sow unk cur.
 
 (* copy.deepcopy(m): the same, with every nested value deep-copied first (nested messages go through
    their own __deepcopy__) *)
 Fixpoint deepcopy_pv (sc : schema) (v : pv) {struct v} : pv :=
   match v with
-  | PMsg (Obj c raw sow unk _) =>
-      let 'Obj c' raw' _ _ cur' := post_init sc c (map (fun x => init_arg sc (deepcopy_pv sc x)) raw) in
-      PMsg (Obj c' raw' sow unk cur')
+  | PMsg (Obj c raw sow unk cur) => PMsg (Obj c (overlay sc c (map (deepcopy_pv sc) raw)) sow unk cur)
   | PList l => PList (map (deepcopy_pv sc) l)
   | PDict d =>
       PDict ((fix gd (d : list (pv * pv)) : list (pv * pv) :=
